@@ -15,8 +15,8 @@ RULE = ('random programs (0-16 top level operations after registering most handl
         'classes mixed with event_handler() without arguments (also on roots), inherited / '
         'overridden / renamed mappings, several events mapped to one method, subclasses redefining '
         'methods a base maps an event to (the function that ran is checked against Python\'s own '
-        'resolution), 1-3 events plus dispatches of names nobody handles, six argument '
-        'shapes (0-2 positionals, 0-2 keywords); 35 % of the handler methods carry a script of 1-3 '
+        'resolution), 1-3 events plus dispatches of names nobody handles, thirteen argument '
+        'shapes (0-2 positionals, 0-3 keywords, keyword-only calls, values None/0/\'\'/tuples); 35 % of the handler methods carry a script of 1-3 '
         'actions (add/remove/is_handler/re-entrant dispatch/clear/raise); dispatching stays '
         'enabled; after every class definition the MRO of the new class and __events__ of all '
         'classes are read back; '
